@@ -645,4 +645,31 @@ theorem cubic_shear_every_style (c11 c12 c44 : K) (h1 : c11 - c12 ≠ 0) (h2 : c
 example : ∃ s : M6 ℚ, ∀ a d, ∑ b, m6 (ctor_C11_C12_C44 (3 : ℚ) 1 2) a b * s b d = if a = d then 1 else 0 :=
   ⟨cubicS 3 1 2, cubic_mul_cubicS 3 1 2 (by norm_num) (by norm_num) (by norm_num)⟩
 
+/-! ## statement audit: non-vacuity of the rotation-invariance theorems on a NON-isotropic tensor and a NON-trivial rotation -/
+section audit
+open Matrix
+
+/-- cubic `C11 = 3, C12 = 1, C44 = 2` (anisotropic: `2 C44 ≠ C11 - C12`), rotated by the 3-4-5 angle about z: the hypotheses
+    of `reuss_moduli_invariant` / `hill_moduli_invariant` (two-sided inverse of `c`, a left inverse `s'` of the ROTATED
+    stiffness) hold with `s' :=` the rotated closed-form compliance. -/
+example : bulkReuss (sijklSetRaw (rot (rotZ (3 / 5 : ℚ) (4 / 5)) (sijklGet (cubicS 3 1 2)))) = bulkReuss (cubicS (3 : ℚ) 1 2) ∧
+    shearReuss (sijklSetRaw (rot (rotZ (3 / 5 : ℚ) (4 / 5)) (sijklGet (cubicS 3 1 2)))) = shearReuss (cubicS (3 : ℚ) 1 2) := by
+  have hcs := cubic_mul_cubicS (3 : ℚ) 1 2 (by norm_num) (by norm_num) (by norm_num)
+  have hsc := cubicS_mul_cubic (3 : ℚ) 1 2 (by norm_num) (by norm_num) (by norm_num)
+  have hO : Orthogonal (rotZ (3 / 5 : ℚ) (4 / 5)) := (rotZ_proper _ _ (by norm_num)).1
+  have hr := compliance_transforms_as_tensor _ _ hcs _ hO
+  have h1 : Matrix.of (cijklSetRaw (rot (rotZ (3 / 5 : ℚ) (4 / 5)) (cijklGet (m6 (ctor_C11_C12_C44 (3 : ℚ) 1 2)))))
+      * Matrix.of (sijklSetRaw (rot (rotZ (3 / 5 : ℚ) (4 / 5)) (sijklGet (cubicS 3 1 2)))) = 1 := by
+    ext a d; simp [Matrix.mul_apply, hr a d, Matrix.one_apply]
+  have h2 := _root_.mul_eq_one_comm.mp h1
+  refine reuss_moduli_invariant _ _ _ (by unfold Symm6; decide) hcs hsc _ hO ?_
+  intro a d
+  have := congrFun (congrFun h2 a) d
+  simpa [Matrix.mul_apply, Matrix.one_apply] using this
+-- the rotation really changes the 6x6 matrix (the instance is not the identity case): C16' ≠ 0 = C16
+example : cijklSetRaw (rot (rotZ (3 / 5 : ℚ) (4 / 5)) (cijklGet (m6 (ctor_C11_C12_C44 (3 : ℚ) 1 2)))) 0 5 ≠ 0 := by
+  decide +kernel
+
+end audit
+
 end Atomman.C11
